@@ -11,6 +11,10 @@ def run(ctx):
     ctx.rule = ("one case = (two inputs in different orders with different coverage [+ climatology], one set of <= k subsetting "
                 "options) x request menu; non-trivial = at least one option given")
     ctx.assumptions = ["initialisation times are whole hours; option values from the 4-value menus of MC_Dataset!OptMenu"]
+    # code -> spec: the Data objects the repository's OWN tests build (its -t/-d/-tod/-l/-lx/-latrange/-lonrange/-obsrange fixtures): their
+    # verified dimensions, their error exits (allowed only for an empty selection) and the arrays they return are validated by TLC
+    from harness import repotests
+    repotests.validate(ctx, thorough=ctx.tier != "quick")
     if ctx.tier == "quick":
         dscommon.run_family(ctx, "C03K2", fmt="text", nontrivial_fn=lambda o: bool(o["opts"]["given"]), cli_lists=250)
         dscommon.run_family(ctx, "C03ClimK1", fmt="text", nontrivial_fn=lambda o: bool(o["opts"]["given"]), cli_lists=40)
